@@ -62,6 +62,8 @@ def grid(types, rng, custom=None):
             pools.append([(a, b) for a in SMALL for b in (-500, -3, 0, 2, 99, 500)])
         elif t == "Span":
             pools.append([(a, b) for a in (-700, -101, -7, 0, 3, 50, 99) for b in (-650, -8, -7, 0, 2, 5, 60, 120, 1001)])
+        elif t == "StoreSeed":  # the dict {i: seed * i + (i & 1) for i in range(8)}
+            pools.append([(a,) for a in (-2, 0, 3, 7)])
         elif t == "Holder":  # (multiplier of its LinearScaler, bias)
             pools.append([(a, b) for a in (-3, 0, 1, 2, 7, 60) for b in (-1, 0, 5, 50, 1000)])
         else:
@@ -164,9 +166,11 @@ def run(keep=False) -> dict:
         for idx, t in enumerate(gen.targets):
             if t.d.get("selftest_skip"):
                 continue  # result type cannot be rendered (an object); exercised through its callers
-            types = [ty for _, ty in t.lean_params()]
+            # Lean argument order: abstract callees, instance-attribute parameters, the dict attribute, the parameters
+            allp = list(t.extra_params) + ([("store'", "StoreSeed")] if t.dstate else []) + list(t.lean_params())
+            types = [ty for _, ty in allp]
             cg = t.d.get("selftest_grid")  # e.g. {"b": [..]}: inputs for parameters whose size drives the running time
-            custom = [cg.get(n) if cg else None for n, _ in t.lean_params()]
+            custom = [cg.get(n) if cg else None for n, _ in allp]
             combos = grid(types, rng, custom)
             plan.append((t, types, combos))
             n_atoms = sum(atoms(ty) for ty in types)
@@ -190,6 +194,10 @@ def run(keep=False) -> dict:
                     names += [f"a{k}", f"a{k+1}"]
                     args.append(f"(⟨⟨fun x => a{k} * x + 1, fun v l => ckv v (-l) l⟩, a{k+1}⟩ : Holder)")
                     k += 2
+                elif ty == "StoreSeed":
+                    names.append(f"a{k}")
+                    args.append(f"(fun i => if 0 ≤ i ∧ i < 8 then some (a{k} * i + Int.fmod i 2) else none)")
+                    k += 1
                 elif ty == "Bool":
                     names.append(f"a{k}")
                     args.append(f"(a{k} != 0)")
@@ -198,9 +206,13 @@ def run(keep=False) -> dict:
                     names.append(f"a{k}")
                     args.append(f"a{k}")
                     k += 1
-            fargs = ["(fun x => 3 * x - 2)" for _ in t.fun_params]   # abstract callee of the self-test: w x = 3*x - 2
+            fargs = t.d.get("selftest_fargs") or ["(fun x => 3 * x - 2)" for _ in t.fun_params]   # abstract callee of the self-test: w x = 3*x - 2
             call = " ".join([t.lean_name] + fargs + args) if (args or fargs) else t.lean_name
-            shown = f"Pyoda.showR (fun v => {lean_show(t.ret, 'v')}) ({call})" if t.raises else lean_show(t.ret, f"({call})")
+            if t.dstate and t.dstate["mode"] == "rw":  # (result, final dict): the result and the values under the keys 0 … 8
+                inner = lean_show(t.ret, "v.1") + ' ++ " " ++ toString ((List.range 9).map (fun (i : Nat) => (v.2 (i : Int)).getD (-999)))'
+                shown = f"Pyoda.showR (fun v => {inner}) ({call})"
+            else:
+                shown = f"Pyoda.showR (fun v => {lean_show(t.ret, 'v')}) ({call})" if t.raises else lean_show(t.ret, f"({call})")
             pat = "[" + ", ".join(names) + "]" if names else "_"
             ev.append(f"#eval runRows \"{t.lean_name}\" \"{tmp}/in_{idx}.txt\" fun r => match r with | {pat} => {shown}" + (" | _ => \"?arity\"" if names else ""))
         (tmp / "Eval.lean").write_text("\n".join(ev) + "\n")
@@ -253,6 +265,13 @@ def run(keep=False) -> dict:
                 args = [Vec._ctor(x=p[0], y=p[1]) if ty == "Vec" else mod.Span._ctor(lo=p[0], hi=p[1]) if ty == "Span" else mod.Holder(mod.LinearScaler(p[0]), p[1]) if ty == "Holder" else p[0]
                         for ty, p in zip(types, c_in)]
                 pnames = [n for n, _ in t.lean_params()]
+                nextra = len(t.extra_params) + (1 if t.dstate else 0)
+                extra_vals, args = args[:nextra], args[nextra:]
+                store = None
+                if t.dstate:
+                    seed = extra_vals[len(t.extra_params)]
+                    store = {i: seed * i + (i & 1) for i in range(8)}
+                    setattr(getattr(mod, t.cls), f"_{t.cls}{t.dstate['attr'].split('.')[-1]}", store)
                 try:
                     if t.lambda_params:  # a factory returning a lambda: f(args)(lambda args)
                         nf = len(pnames) - len(t.lambda_params)
@@ -273,10 +292,22 @@ def run(keep=False) -> dict:
                         else:  # erased receiver
                             if t.fun_params:
                                 obj = type("Probe", (getattr(mod, t.cls),), {"_weight": lambda self, x: 3 * x - 2})()
+                            elif t.extra_params:
+                                # instance attributes carried as parameters: set them on a bare instance
+                                obj = object.__new__(cls)
+                                inv = {v[6:]: a for a, v in t.self_attrs.items() if isinstance(v, str) and v.startswith("param:")}
+                                for (n, _), val in zip(t.extra_params, extra_vals):
+                                    en = (t.d.get("selftest_enum") or {}).get(n)
+                                    if en:
+                                        val = getattr(mod, en)(val)
+                                    a = inv[n]
+                                    setattr(obj, f"_{t.cls}{a}" if a.startswith("__") and not a.endswith("__") else a, val)
                             else:
                                 obj = cls()
                             r = getattr(obj, t.function)(**dict(zip(pnames, args)))
                     p_res = py_show(r)
+                    if t.dstate and t.dstate["mode"] == "rw":
+                        p_res += " [" + ", ".join(str(store.get(i, -999)) for i in range(9)) + "]"
                 except Exception as e:  # noqa: BLE001
                     p_res = "!" + EXC.get(type(e).__name__, "other:" + type(e).__name__)
                 res["evaluations"] += 1
